@@ -501,9 +501,10 @@ outcome_t check_solve(const prog_t& P, const truth_t& T, const start_t& S, const
     {
         return out;
     }
-    if (!(worst > 10.0))
+    // the allowances are the property's own (they already carry a 100x margin over the solver's residual test): no
+    // further band beyond the rounding of the harness's own recomputation
+    if (!(worst > 1.0 + 1e-9))
     {
-        out.verdict = verdict_t::borderline(std::string("C04/") + clause);
         return out;
     }
 
